@@ -473,7 +473,115 @@ def r7(ctx):
     if n < 1:
         raise AnalysisBroken('C08.R7: cut of the chain ID to its common prefix not found in Message::create')
 
+def _add_fn(fb, rid):
+    fn = [f for f in fb.fns('ebusd::MessageMap::add') if 'Message *' in f.sig]
+    if len(fn) != 1:
+        raise AnalysisBroken('%s: MessageMap::add(bool, Message*, bool) not found' % rid)
+    return fn[0]
+
+
+def r9(ctx):
+    ctx.rule('C08.R9', 'only loaded definitions are found: MessageMap::add either stores the definition completely and returns '
+             'RESULT_OK or rejects it and leaves no trace - behind every statement that enters the new message into a member '
+             'container of the map (push_back / insert / emplace / element assignment with the message, addPollMessage) or '
+             'raises a maximum ID length, no return with an error code is reachable; a definition rejected after it was '
+             'entered under its key is still returned by find() (and deleted by the loader)', minimum=4)
+    fb = ctx.fb
+    fn = _add_fn(fb, 'C08.R9')
+    ctx.touch(fn)
+    msg = fn.P(1)
+    errs = [r for r in fn.all('ReturnStmt') if fn.nodes[r].get('val') is not None and fn.val(fn.nodes[r]['val']) not in (0, None)]
+    unknown = [r for r in fn.all('ReturnStmt') if fn.nodes[r].get('val') is not None and fn.val(fn.nodes[r]['val']) is None]
+    sites = []
+    for c in fn.calls():
+        v = fn.nodes[c]
+        last = (v.get('callee') or '').split('::')[-1]
+        keys = [fn.key(a) for a in v.get('args', [])]
+        if last in ('push_back', 'insert', 'emplace', 'emplace_back', 'addPollMessage') and msg in keys:
+            sites.append((c, '%s(%s)' % (last, msg)))
+    for nid, d, rhs, op, lhs in fn.assignments():
+        if lhs is None or op == 'init':
+            continue
+        lk = fn.key(lhs)
+        if rhs is not None and fn.key(rhs) == msg and lk.startswith('this.'):
+            sites.append((nid, '%s = %s' % (lk, msg)))
+        elif lk in ('this.m_maxIdLength', 'this.m_maxBroadcastIdLength'):
+            sites.append((nid, 'raise of %s' % lk.split('.')[-1]))
+    if len(sites) < 4 or not errs:
+        raise AnalysisBroken('C08.R9: stores of the new message in MessageMap::add not recognised (%d sites, %d error returns)' % (len(sites), len(errs)))
+    for sid, what in sites:
+        if fn.block_of(sid) is None:
+            continue
+        bad = [r for r in errs + unknown if fn.reaches_point(fn.pos(sid)[0], fn.pos(r), set(), start_idx=fn.pos(sid)[1] + 1)]
+        ctx.ob('C08.R9', fn, sid, not bad, what, 'no error return reachable behind it: %s%s' % (
+            not bad, '' if not bad else ' (return at line %d)' % fn.line_of(bad[0])))
+
+
+def r10(ctx):
+    ctx.mark('replace-same-id', 'C08.R10')
+    ctx.rule('C08.R10', 'replacing a definition removes only definitions with the same ID: the entries of a key bucket '
+             '(m_messagesByKey) share a hash of the ID, not the ID, and a chained definition is stored under the prefix of '
+             'its parts; so wherever MessageMap::add walks over a key bucket to collect or remove entries, the entry is '
+             'taken only behind the virtual comparison checkId(const Message&) between it and the new message (which '
+             'ChainedMessage overrides to compare the parts)', minimum=1)
+    fb = ctx.fb
+    fn = _add_fn(fb, 'C08.R10')
+    ctx.touch(fn)
+    msg = fn.P(1)
+
+    def is_bucket(x, depth=0):
+        k = fn.key(x)
+        if 'm_messagesByKey' in k:
+            return True
+        if depth > 3:
+            return False
+        for y in fn.walk(x):
+            v = fn.nodes[y]
+            if v['k'] == 'DeclRefExpr' and v.get('rk') == 'local':
+                d = fn.def_expr(y)
+                if d is not None and d != y and is_bucket(d, depth + 1):
+                    return True
+        return False
+    pnames = set(p['name'] for p in fn.params)
+    # buckets handed to a lambda of this function
+    lam_bucket = False
+    for c in fn.calls():
+        v = fn.nodes[c]
+        if v['k'] == 'CXXOperatorCallExpr' and (v.get('callee') or '').endswith('::operator()') and '(anonymous class)' in (v.get('callee') or ''):
+            if any(is_bucket(a) for a in v.get('args', [])[1:]):
+                lam_bucket = True
+    n = 0
+    for l in fn.all('CXXForRangeStmt'):
+        v = fn.nodes[l]
+        rng = v.get('range')
+        if rng is None:
+            continue
+        rv = fn.nodes[fn.strip(rng, casts=True)]
+        over = is_bucket(rng) or (lam_bucket and rv.get('k') == 'DeclRefExpr' and rv.get('rk') == 'param' and rv.get('name') not in pnames)
+        if not over:
+            continue
+        lv = (v.get('loopvar') or '').split(':')[-1]
+        inside = set(fn.walk(v['body']))
+        takes = [c for c in fn.calls() if c in inside and (fn.nodes[c].get('callee') or '').split('::')[-1] in ('push_back', 'remove', 'erase', 'emplace_back')
+                 and lv in [fn.key(a) for a in fn.nodes[c].get('args', [])]]
+        checks = [c for c in fn.calls() if c in inside and (fn.nodes[c].get('callee') or '') == 'ebusd::Message::checkId' and
+                  len(fn.nodes[c].get('args', [])) == 1 and
+                  {fn.key(fn.nodes[c].get('obj', -1)), fn.key(fn.nodes[c]['args'][0]).lstrip('*')} == {msg, lv}]
+        for t in takes:
+            n += 1
+            if fn.block_of(t) is not None and checks:
+                ok = fn.needs_one_of(t, [(fn.key(c), True) for c in checks])
+            else:
+                ok = False
+            ctx.ob('C08.R10', fn, t, ok, 'entry of a key bucket taken for removal',
+                   'only behind checkId(const Message&) with the new message: %s' % ok)
+    if n == 0:
+        raise AnalysisBroken('C08.R10: the walk over the key bucket in replace mode was not recognised')
+
+
 def run(ctx):
+    r9(ctx)
+    r10(ctx)
     r5(ctx)
     find, mv = r1(ctx)
     r2(ctx, find)
